@@ -330,6 +330,7 @@ func TestVerifC28(t *testing.T) { //nolint:gocyclo,cyclop,maintidx
 		tsOrigin := ts0  // timestamp at total = 0
 		nextSeq := seq0 // next sequence number to be used
 		var multi, fractional, anyDrop, anyEmpty, wrapTS, wrapSeq bool
+		var dropSinceObs, emptySinceObs bool // what happened since the last sample whose packets were observed
 		var packets, zeroPktSamples, maxAbsDiff int
 		failed := false
 		tmp := new(big.Int)
@@ -371,6 +372,7 @@ func TestVerifC28(t *testing.T) { //nolint:gocyclo,cyclop,maintidx
 			// model: skipped packets come first
 			if s.Drop > 0 {
 				anyDrop = true
+				dropSinceObs = true
 				total.Add(total, tmp.Mul(big.NewInt(s.DurNs), big.NewInt(int64(rate)*int64(s.Drop))))
 				if seqKnown {
 					if int(nextSeq)+int(s.Drop) > 65535 {
@@ -415,10 +417,10 @@ func TestVerifC28(t *testing.T) { //nolint:gocyclo,cyclop,maintidx
 				if ad > 1 && !failed {
 					cause := "accumulation"
 					switch {
-					case s.Drop > 0:
+					case dropSinceObs:
 						cause = "drop-skip"
-					case k > 0 && samples[k-1].Size == 0:
-						cause = "after-empty-sample"
+					case emptySinceObs:
+						cause = "after-packetless-sample"
 					case k == 0:
 						cause = "initial"
 					}
@@ -434,8 +436,8 @@ func TestVerifC28(t *testing.T) { //nolint:gocyclo,cyclop,maintidx
 				}
 				for j := range got {
 					if got[j].seq != nextSeq && !failed {
-						cause := "seq-step"
-						if j == 0 && s.Drop > 0 {
+						cause := "seq-step-within-sample"
+						if j == 0 && dropSinceObs {
 							cause = "seq-drop-skip"
 						} else if j == 0 {
 							cause = "seq-step-between-samples"
@@ -449,6 +451,11 @@ func TestVerifC28(t *testing.T) { //nolint:gocyclo,cyclop,maintidx
 					}
 					nextSeq++
 				}
+			}
+			if len(got) > 0 {
+				dropSinceObs, emptySinceObs = false, false
+			} else {
+				emptySinceObs = true
 			}
 			// the sample's own duration follows it
 			total.Add(total, tmp.Mul(big.NewInt(s.DurNs), big.NewInt(int64(rate))))
